@@ -238,7 +238,7 @@ class CheckResult:
         if os.environ.get("VERIF_DUMP_OBLIGATIONS"):
             by_name: dict = {}
             for fr, o in self.all_obligations():
-                if o["kind"] == "property":
+                if o["kind"] not in ("canary", "prune"):
                     by_name.setdefault(o["name"], []).append(o["status"] == "proved")
             for n, oks in sorted(by_name.items()):
                 if all(oks):
@@ -340,12 +340,15 @@ def standard_flow(res: CheckResult, files: list[str], targets: list[str], concre
                 f"\nprint('obligation: {o['name']}')\nprint({json.dumps(o.get('inputs'), default=str)!r})\nprint({o.get('model_text', '')[:2500]!r})\nsys.exit(1)\n"
             p = write_replay(res.prop, o["name"].replace("/", "__") + "@" + o.get("path", "") + "__model", text)
             res.violations.append({"clause": o["name"], "replay": p, "confirmed": False})
-        elif o["status"] == "refuted":
-            res.extra.setdefault("unproved_supporting", []).append(o["name"])
-            print(f"UNPROVED supporting clause {o['name']} (refuted by {o['backend']})")
         else:
+            # not proved and no counterexample to the property itself: an undecided property clause, or a
+            # supporting obligation of the proof (loop invariant, callee precondition, safety, frame) that is not
+            # discharged - the property clauses proved from it then rest on nothing, so it counts like them
             base = load_baseline(res.prop)
-            if is_prop and base and o["name"] in base["proved"] and base["tree"] != tree_hash():
+            if not is_prop:
+                res.extra.setdefault("unproved_supporting", []).append(o["name"])
+                print(f"UNPROVED supporting clause {o['name']} ({o['status']} - {o['backend']})")
+            if base and o["name"] in base["proved"] and base["tree"] != tree_hash():
                 # the interface's rule for a failed obligation without a counterexample: this obligation was
                 # discharged on the tree the baseline was recorded on, the tree has changed since, and the
                 # verifier no longer accepts it (also not with the larger budget)
@@ -354,11 +357,8 @@ def standard_flow(res: CheckResult, files: list[str], targets: list[str], concre
                     f"print('baseline tree {base['tree'][:16]}, this tree {tree_hash()[:16]}')\nsys.exit(1)\n"
                 p = write_replay(res.prop, o["name"].replace("/", "__") + "@" + o.get("path", "") + "__undischarged", text)
                 res.violations.append({"clause": o["name"], "replay": p, "confirmed": False})
-            elif is_prop:
-                res.undecided.append(f"{o['name']} [{o['status']}]")
             else:
-                res.extra.setdefault("unproved_supporting", []).append(o["name"])
-                print(f"UNPROVED supporting clause {o['name']} ({o['status']})")
+                res.undecided.append(f"{o['name']} [{o['status']}]")
     for v in bviol:
         res.violations.append({"clause": v.get("clause", "bounded"), "replay": v["replay"], "confirmed": True})
     # undecided property clauses that the bounded stand-in refuted concretely are violations already;
